@@ -706,6 +706,10 @@ class Session:
     def _apply(self, op):
         k = op["k"]
         p = self.project
+        if k == "bgload":
+            from . import noise
+
+            return "bgload:" + noise.run(op).split(":")[0]
         if k == "mod":
             pool = TYPES if op.get("any", True) else SIMPLE_TYPES
             cls = pool[op["t"] % len(pool)]
